@@ -1,2 +1,199 @@
--- line-protocol driver for C09 (stub; replaced when the property is built)
-def main : IO Unit := IO.println "stub"
+import Verif.Model.Renew
+/-!
+  Line-protocol driver for C09 (renewal / rekey).
+
+  Two kinds of lines, `key=value` fields separated by single spaces, first field the kind:
+
+  gate mode=coded|spec rev=no|yes|err db=none|gone|<prov> ext=none|bad|gone|<prov> nyv=0|1 exp=0|1
+      <prov> = ctl:<d><a><c> (d = renewal disabled, a = allow after expiry, c = n|a|r custom func)
+             | base | uninit
+      mode=coded runs `Renew.current`, output allow | refuse:<reason> | crash
+      mode=spec  runs `Renew.repaired` (the variant for which the full-strength theorem is
+                 proved), output allow | refuse | crash
+
+  renew|rekey subj= ku= eku= ueku= uce= bc= ca= mpl= mplz= ocsp= iurl= dns= em= ip= uri= ncc=
+      pd= xd= pi= xi= pe= xe= pu= xu= crl= pol= key= nkey= nb= na= bd= exts= gen= aki= nski=
+      lists joined by ',' (`-` when empty); byte strings `x<hex>`; OIDs dotted; `exts`/`gen`
+      entries `oid/crit/x<hex>`; `nkey=!` on renew.
+      output: issued key= subj= dur= exts= fdiff=   | signerr | refuse:<reason> | crash
+-/
+open Verif Verif.Renew
+
+namespace C09
+
+def lookup (kv : List (String × String)) (k : String) : Option String :=
+  (kv.find? (·.1 = k)).map (·.2)
+
+def str? (t : String) : Option Str :=
+  if t.startsWith "x" then unhex (t.drop 1).toString else none
+
+def bool? (t : String) : Option Bool :=
+  if t = "1" then some true else if t = "0" then some false else none
+
+def list? {α : Type} (f : String → Option α) (t : String) : Option (List α) :=
+  if t = "-" then some [] else (t.splitOn ",").mapM f
+
+def oid? (t : String) : Option Oid := (t.splitOn ".").mapM String.toNat?
+
+def int? (t : String) : Option Int := t.toInt?
+
+def ext? (t : String) : Option Ext :=
+  match t.splitOn "/" with
+  | [o, c, v] => do pure ⟨(← oid? o), (← bool? c), (← str? v)⟩
+  | _ => none
+
+def oidS (o : Oid) : String := ".".intercalate (o.map toString)
+def extS (e : Ext) : String := s!"{oidS e.oid}/{if e.critical then 1 else 0}/x{hex e.value}"
+def listS (xs : List String) : String := if xs.isEmpty then "-" else ",".intercalate xs
+
+/-! ### gates -/
+
+def custom? : Char → Option Custom
+  | 'n' => some .none | 'a' => some .allow | 'r' => some .refuse | _ => none
+
+def prov? (t : String) : Option Stored :=
+  match t with
+  | "base" => some .base
+  | "uninit" => some .uninit
+  | _ =>
+    match t.splitOn ":" with
+    | ["ctl", f] =>
+      match f.toList with
+      | [d, a, c] => do pure (.ctl (← bool? d.toString) (← bool? a.toString) (← custom? c))
+      | _ => none
+    | _ => none
+
+def rev? : String → Option Revoked
+  | "no" => some .no | "yes" => some .yes | "err" => some .err | _ => none
+
+def db? (t : String) : Option DbLookup :=
+  match t with
+  | "none" => some .noRecord
+  | "gone" => some .gone
+  | _ => (prov? t).map .found
+
+def extl? (t : String) : Option ExtLookup :=
+  match t with
+  | "none" => some .noExt
+  | "bad" => some .malformed
+  | "gone" => some .gone
+  | _ => (prov? t).map .found
+
+def reasonS : Reason → String
+  | .revocationCheckFailed => "revcheck" | .revoked => "revoked"
+  | .provisionerNotFound => "notfound" | .uninitialized => "uninitialized"
+  | .notImplemented => "notimplemented" | .renewDisabled => "disabled"
+  | .notYetValid => "notyetvalid" | .expired => "expired" | .customRefused => "custom"
+
+def gate (kv : List (String × String)) : Option String := do
+  let mode ← lookup kv "mode"
+  let i : GateIn := {
+    revoked := (← rev? (← lookup kv "rev"))
+    db := (← db? (← lookup kv "db"))
+    ext := (← extl? (← lookup kv "ext"))
+    notYetValid := (← bool? (← lookup kv "nyv"))
+    expired := (← bool? (← lookup kv "exp")) }
+  match mode with
+  | "coded" =>
+    match Renew.decide current i with
+    | .crash => pure "crash"
+    | .val .allow => pure "allow"
+    | .val (.refuse r) => pure s!"refuse:{reasonS r}"
+  | "spec" =>
+    match Renew.decide repaired i with
+    | .crash => pure "crash"
+    | .val .allow => pure "allow"
+    | .val (.refuse _) => pure "refuse"
+  | _ => none
+
+/-! ### fidelity -/
+
+def fields? (kv : List (String × String)) : Option Fields := do
+  let g := fun k => lookup kv k
+  let sl := fun k => do list? str? (← g k)
+  let ol := fun k => do list? oid? (← g k)
+  pure {
+    rawSubject := (← str? (← g "subj"))
+    keyUsage := (← (← g "ku").toNat?)
+    extKeyUsage := (← list? String.toNat? (← g "eku"))
+    unknownExtKeyUsage := (← ol "ueku")
+    unhandledCritical := (← ol "uce")
+    bcValid := (← bool? (← g "bc"))
+    isCA := (← bool? (← g "ca"))
+    maxPathLen := (← int? (← g "mpl"))
+    maxPathLenZero := (← bool? (← g "mplz"))
+    ocspServer := (← sl "ocsp")
+    issuingURL := (← sl "iurl")
+    dnsNames := (← sl "dns")
+    emailAddresses := (← sl "em")
+    ipAddresses := (← sl "ip")
+    uris := (← sl "uri")
+    ncCritical := (← bool? (← g "ncc"))
+    permDNS := (← sl "pd")
+    exclDNS := (← sl "xd")
+    permIP := (← sl "pi")
+    exclIP := (← sl "xi")
+    permEmail := (← sl "pe")
+    exclEmail := (← sl "xe")
+    permURI := (← sl "pu")
+    exclURI := (← sl "xu")
+    crlDP := (← sl "crl")
+    policies := (← ol "pol") }
+
+/-- The field groups of a parsed certificate, by the extension they are read from. -/
+def groups : List (String × Oid) :=
+  [("ku", oidKU), ("eku", oidEKU), ("bc", oidBC), ("ski", oidSKI), ("aia", oidAIA),
+   ("san", oidSAN), ("pol", oidPol), ("nc", oidNC), ("crl", oidCRLDP)]
+
+def fdiff (old new : Cert) : List String :=
+  (if old.f.rawSubject == new.f.rawSubject then [] else ["subj"]) ++
+  (groups.filter fun g => extOf g.2 old.extensions != extOf g.2 new.extensions).map (·.1)
+
+def fidelity (isRekey : Bool) (kv : List (String × String)) : Option String := do
+  let g := fun k => lookup kv k
+  let f ← fields? kv
+  let key ← str? (← g "key")
+  let nkeyS ← g "nkey"
+  let pk : Option Str ← if nkeyS = "!" then pure none else (str? nkeyS).map some
+  if isRekey != pk.isSome then none
+  let exts ← list? ext? (← g "exts")
+  let gen ← list? ext? (← g "gen")
+  let old : Cert := {
+    f, publicKey := key, serial := 0
+    notBefore := (← int? (← g "nb")), notAfter := (← int? (← g "na"))
+    issuer := [], extensions := exts }
+  let val := fun (o : Oid) => ((extOf o gen).map (·.value)).getD (s "missing")
+  let enc : Enc := {
+    ku := fun _ => val oidKU, eku := fun _ => val oidEKU, bc := fun _ => val oidBC
+    ski := fun _ => val oidSKI, aki := fun _ => val oidAKI, aia := fun _ => val oidAIA
+    san := fun _ => val oidSAN, pol := fun _ => val oidPol, nc := fun _ => val oidNC
+    crl := fun _ => val oidCRLDP }
+  let nski ← str? (← g "nski")
+  let env : Env := {
+    enc, now := 0, backdate := (← int? (← g "bd")), serial := 1, issuerSubject := []
+    parentSKI := (← str? (← g "aki")), skiOf := fun _ => nski }
+  let i : GateIn := ⟨.no, .found (.ctl false false .none), .found (.ctl false false .none), false, false⟩
+  match renew current env i old pk with
+  | .crash => pure "crash"
+  | .val (.refused r) => pure s!"refuse:{reasonS r}"
+  | .val (.signError _) => pure "signerr"
+  | .val (.issued c) =>
+    pure s!"issued key=x{hex c.publicKey} subj=x{hex c.f.rawSubject} dur={c.notAfter - c.notBefore} exts={listS (c.extensions.map extS)} fdiff={listS (fdiff old c)}"
+
+def eval (line : String) : Option String :=
+  match fields line with
+  | [] => none
+  | kind :: rest =>
+    let kv := rest.filterMap fun f =>
+      match f.splitOn "=" with
+      | [k, v] => some (k, v)
+      | _ => none
+    match kind with
+    | "gate" => gate kv
+    | "renew" => fidelity false kv
+    | "rekey" => fidelity true kv
+    | _ => none
+
+end C09
+
+def main : IO Unit := Verif.lineLoop fun l => (C09.eval l).getD "parse-error"
